@@ -63,14 +63,20 @@ def gen_instances(ck: Check):
     yield "boundary", 1, 1, [[1, 1, 3]], [[1, 1, 1], [-1, 1, -1]]
     yield "boundary", 5, 3, [[5, 3, 2], [3, 5, 1]], [[1, 2, 1], [-1, -2, -1], [2, -1, 1]]
     yield "boundary", 10, 2, [[2, 10, 2], [1, 7, 1], [10, 1, 1]], [[1, 2, 3, 1], [-1, -2, -3, -1], [3, -1, 2, 1]]
-    for m in (63, 64, 16383, 16384, 2**30 - 1, 2**30, 2**31, 10**12):
-        W = H = m
-        for it in ([[m, m, 1], [m - 1 if m > 1 else 1, 1, 2]], [[m, 1, 2], [1, m, 1], [max(1, m // 2), max(1, m // 2 + 1), 2]]):
-            xs = [signed_perm(rng, it) for _ in range(3)]
-            yield "dtype-threshold", W, H, it, xs
+    # The real constructor's lower bound costs O(min(W,H)) iterations and expands an item into (long side / short side)
+    # squares, so huge bins are only constructible when they are thin and hold small items: dtype = f(max_dim + max_size + 1)
+    for m in (60, 61, 123, 124, 16380, 16381, 32763, 32764, 2**30, 2**31 - 5, 2**31 - 4, 10**12):
+        for (W, H) in ((m, 3), (2, m)):
+            lo = min(W, H)
+            for it in ([[lo, lo, 2], [1, 2, 2], [2, 1, 1]], [[1, 1, 3], [lo, 1, 2]]):
+                xs = [signed_perm(rng, it) for _ in range(3)]
+                yield "dtype-threshold", W, H, it, xs
+    for m in (63, 64, 125, 126, 200):    # small enough for square bins with bin-sized items
+        it = [[m, m, 1], [m - 1, 1, 2], [1, m, 1], [m // 2, m // 2 + 1, 2]]
+        yield "dtype-threshold", m, m, it, [signed_perm(rng, it) for _ in range(3)]
     for n in (126, 127, 128):   # n_items + 1 at the int8 edge
         yield "dtype-nitems", 4, 4, [[1, 1, n]], [[1] * n, [-1] * n]
-    yield "boundary", 10**12, 10**12 - 1, [[10**12, 5, 1], [7, 10**12, 2], [10**11, 10**11, 3]], \
+    yield "boundary", 10**12, 7, [[7, 5, 1], [7, 7, 2], [3, 3, 3]], \
         [signed_perm(rng, [[1, 1, 1], [1, 1, 2], [1, 1, 3]]) for _ in range(3)]
     # (3) structured random
     for _ in range(120 if q else 3000):
@@ -183,7 +189,7 @@ def streams(ck: Check, prop: str = "C01") -> None:
 
 def check(ck: Check) -> None:
     ck.rule = ("exhaustive: sampled instances with bins <= 3x3 (quick) / 4x4 and <= 2/3 item types x ALL signed permutations; boundary "
-               "(1x1 bins, item = bin, rotate-only items, dtype thresholds 63/64, 16383/16384, 2^30, 2^31, 10^12, n_items 126..128); "
+               "(1x1 bins, item = bin, rotate-only items, thin bins at the dtype thresholds 63/64, 125/126, 16383/16384, 2^30, 2^31, 10^12, n_items 126..128); "
                "structured random; shipped instances; every decode with a dirty destination, dirty scratch arrays and a reused "
                "encoder object; non-trivial = more than one item; distinct by protocol line")
     ck.assumptions += ["numba compiles the kernels as written (int64 arithmetic on loaded values, no wrap: proved range theorems)",
